@@ -353,3 +353,77 @@ def _unused_c14(pid, tier):
                            "outside": "larger batches; the other commit steps of C14 (length bounds, per-proof cryptographic verification under the pinned verifier, padding asset compatibility) need real proofs and are not encoded; "
                                       "the link 'A(x) = circuit acceptance' is the C07/C13 result, the Rust predicate here is its transcription"},
                           ["real qp-plonky2 proof types with empty proof bodies (the preflights only read public inputs)"], timeout_q=2400, timeout_t=3600, parallel=2, mem_gb=14)
+
+
+# ----------------------------------------------------------------------------- C19 / C22: ProofPool::push from its MIR
+POOL_FUNCS = ["wormhole_aggregator::pool::ProofPool::push (MIR of /repo's current source, every basic block)",
+              "ProofPool::push::{closure#1} (the duplicate-nullifier predicate, executed from its own MIR)"]
+POOL_ASSUME = ["stubs (environment models, see native/mirpool.py): ProofPool::len = number of pooled proofs; parse_metadata returns an arbitrary Result "
+               "(what it accepts - length and canonical digests - is the parser's contract, see C24); BatchKey::is_dummy is an uninterpreted predicate of the key; "
+               "Instant::now is monotonic; duration_since saturates; VerifierCircuitData::verify returns an arbitrary Result; BTreeMap/HashMap/Vec operations by "
+               "their std contracts over arrays (has, cnt, nb, ni, nik); formatting/anyhow/clone/drop have no effect on the pool",
+               "pre-state: limits as ProofPool::new admits them (all >= 1), counter <= limit, proof count <= max_proofs, bucket count <= max_buckets",
+               "z3 verdicts (Int + Array theories); nightly rustc's MIR (-Zunpretty=mir, overflow checks on) is the program that is analysed"]
+
+
+def run_pool_check(pid, tier):
+    import z3
+    import csxlib
+    import poolcheck
+    import mirpool
+    from registry import finish
+    t0 = time.time()
+    csxlib.build_emitter()
+    K = 2 if tier == "quick" else 4
+    try:
+        ex = poolcheck.load(K)
+        ctx, qs = poolcheck.obligations(ex, pid)
+    except mirpool.Unsupported as e:
+        print(f"INCONCLUSIVE: the MIR of ProofPool::push uses a construct the executor does not model: {e}")
+        return 2
+    print(f"[{pid}] ProofPool::push: {len(ex.paths)} MIR paths (nullifier list length <= {K}); unmodelled effect-free calls: {sorted(ex.unknown_calls)}", flush=True)
+    nval, vfails = poolcheck.validate_translation(ex, ctx, csxlib.EMIT_BIN, pid)
+    print(f"[{pid}] translator validation: {nval} real push steps explained by the MIR summary, {len(vfails)} not", flush=True)
+    inconcl = ["translator validation: " + f for f in vfails]
+    replays = {}
+    for q in qs:
+        print(f"  {q.name[:150]:150s} {q.verdict:10s} {q.secs:6.2f}s", flush=True)
+        if q.verdict != "CEX":
+            continue
+        rep = (False, "", "no realisable small instance of the counterexample")
+        for k, (S, g, m) in enumerate(q.cex[:6] if q.cex else []):
+            sm = poolcheck.small_model(ctx, S, [z3.Not(g)])
+            if sm is None:
+                continue
+            sc = poolcheck.scenario_from_model(ctx, sm)
+            rep = poolcheck.replay(pid, f"{qs.index(q)}.{k}", sc, csxlib.EMIT_BIN)
+            if rep[0]:
+                break
+        if not q.cex and q.path is not None:
+            rep = (False, "", "panic/overflow path: " + getattr(q, "note", ""))
+        replays[q.name] = (rep[0], rep[1], q.name + "; " + rep[2])
+
+    class Sess:
+        results = qs
+    rc, known = finish(pid, qs, replays, inconcl)
+    csxlib.write_evidence(pid, tier, t0, [Sess], POOL_FUNCS,
+                          {"step": "ONE call of push from an ARBITRARY pool state satisfying the stated pre-state assumptions (inductive step: covers histories of any length for the "
+                                   "per-step clauses and for the window-counter invariant)",
+                           "nullifiers_per_proof": f"<= {K} (symbolic length)", "integers": "mathematical integers constrained to usize; overflow of the counter increment is a checked outcome",
+                           "paths": len(ex.paths),
+                           "outside": "parse_metadata's own acceptance condition; evict_*/remove_bucket/snapshot (not analysed: closures over retain/filter_map are beyond this executor); "
+                                      "that Instant::now is monotonic"},
+                          POOL_ASSUME, extra={"states": len(ex.paths), "transitions": sum(len(S.events) for S, _, _ in ex.paths)},
+                          traces_validated=nval, violations=1 if rc == 1 else 0, known=known)
+    print(f"[{pid}] {sum(1 for q in qs if q.verdict in ('HOLDS', 'REACHABLE'))}/{len(qs)} queries discharged, wall {time.time() - t0:.1f}s, exit {rc}")
+    return rc
+
+
+@register("C19")
+def c19(pid, tier):
+    return run_pool_check(pid, tier)
+
+
+@register("C22")
+def c22(pid, tier):
+    return run_pool_check(pid, tier)
